@@ -826,8 +826,10 @@ func (w *wWorld) run(scratch string, s *wSchedule, emit func(*wRow)) error {
 			row.Err += " visible: " + err.Error()
 			row.Vis = []wStream{}
 		}
-		if row.One, err = w.oneShotOf(scratch, imported); err != nil {
-			return err
+		if os.Getenv("VERIF_ONESHOT") != "0" {
+			if row.One, err = w.oneShotOf(scratch, imported); err != nil {
+				return err
+			}
 		}
 		row.Ms = time.Since(t0).Milliseconds()
 		emit(row)
